@@ -74,16 +74,18 @@ func dayTime(d string) time.Time {
 }
 
 type c14 struct {
-	s        *spec.Spec
-	out      *spec.Result
-	m        *hmodel
-	firstY   int
-	lastY    int
-	rng      uint64
-	resolved []string
-	checks   uint64
-	step     int
-	touched  []string // days added or changed by earlier fix-ups (bias: follow-up fix-ups hit the same records)
+	s         *spec.Spec
+	out       *spec.Result
+	m         *hmodel
+	firstY    int
+	lastY     int
+	rng       uint64
+	resolved  []string
+	checks    uint64
+	step      int
+	touched   []string // days added or changed by earlier fix-ups (bias: follow-up fix-ups hit the same records)
+	lastNames []string // the slice object most recently passed to Fix as names list
+	renames   int
 }
 
 // pickDay chooses an existing record, half of the time one that an earlier fix-up touched.
@@ -280,6 +282,13 @@ func (c *c14) resolve(st spec.HStep) ([]string, string) {
 		}
 		nNames = len(names)
 		probesC["fix_names_extended"]++
+	} else if st.Rename != 0 && c.lastNames != nil {
+		// the caller renames a label in place in the very slice it passed before, and passes it again
+		i := int(st.Rename % uint64(len(c.lastNames)))
+		c.renames++
+		c.lastNames[i] = fmt.Sprintf("改名%d", c.renames)
+		names = c.lastNames
+		probesC["fix_names_renamed_in_place"]++
 	}
 	days := c.m.days()
 	used := map[string]bool{}
@@ -415,6 +424,7 @@ func (c *c14) applyFix(names []string, data string) {
 	}
 	if names != nil {
 		c.m.names = append([]string{}, names...)
+		c.lastNames = names
 	}
 	maxDay := ""
 	for d := range c.m.recs {
